@@ -1,19 +1,23 @@
 /-
-Model for C19 (`numqi/qec/_qecc.py`, `numqi/qec/_internal.py`).  No Mathlib import: everything
-here is executable (driver) and kernel-evaluable (`decide +kernel` in `NumqiProps/C19.lean`).
+Model for C19 (`numqi/qec/_qecc.py`, `numqi/qec/_internal.py`, gate application of `sim/circuit.py`).
+No Mathlib import: everything here is executable (driver) and kernel-evaluable (`decide +kernel` in
+`NumqiProps/C19.lean`).
 
 Contents
 * `Gate`, `Code`               — the data written by the translator (`Generated/QecCircuits.lean`)
 * `MP`                         — phased Pauli operator `i^k X^x Z^z` on `Nat` bitmasks (bit `q` = qubit `q`)
-* `conj`, `gens`               — tableau propagation `P ↦ G P G†` (own small tableau, used only as a
-                                 *generator of candidates*: every generator is re-checked on the vectors)
-* `T`, `run`, `codewords`      — state vectors as perfect binary trees of Gaussian integers (qubit 0 = most
-                                 significant = root, the layout of `numqi.sim`), amplitudes scaled by `√2^h`;
-                                 model of `Circuit.apply_state` for H/X/Y/Z/S/CX/CY/CZ and of `generate_code_np`
-* `applyP`, `inner`            — Pauli operator applied to a vector, inner product
+* `conj1`, `conj`, `gens`, `zbars`, `xbars`
+                               — own small tableau: propagation `P ↦ G P G†` through a gate list
+* `applyGate`, `run`, `codeword`
+                               — state vectors as functions `position → amplitude` over any scalar type
+                                 (position: qubit `q` = bit `q`; numpy's flat index is the bit reversal),
+                                 `H` scaled by `√2`; model of `Circuit.apply_state` for H/X/Y/Z/S/CX/CY/CZ and
+                                 of `generate_code_np`
+* `pauliAct`, `inner`          — Pauli operator applied to a vector, inner product
 * `errorList`, `asymErrorSet`  — models of `make_error_list`, `hf_split_element`, `make_asymmetric_error_set`
-* `stabCheck`, `klCheck`, `orthoCheck`, `listedFixCheck`, `stabCircImplCheck`, `stabCircFixCheck`
-                               — the Boolean obligations evaluated per code
+* `klCheck`, `listedCheck`, `stabCircImplCheck`
+                               — the Boolean obligations evaluated per code in the kernel
+* vector-level evaluations used by the driver (`amps`, `fixes`, `weightEnum`)
 -/
 import NumqiModel.Scalar
 
@@ -43,6 +47,12 @@ structure Code where
   stabCircs : List (List Gate)
 deriving Repr, Inhabited
 
+/-- the gate touches only qubits `< n` (and control ≠ target) -/
+def gateOk (n : Nat) : Gate → Bool
+  | .h q | .x q | .y q | .z q | .s q => q < n
+  | .cx c t | .cy c t | .cz c t => c < n && t < n && c != t
+  | .unknown => false
+
 /-! ### Pauli operators on bitmasks -/
 
 /-- `i^k · X^x · Z^z`; bit `q` of a mask belongs to qubit `q`. -/
@@ -54,25 +64,31 @@ deriving DecidableEq, Repr, Inhabited
 
 def bit (q : Nat) : Nat := 1 <<< q
 
-/-- parity of the number of set bits among the lowest `fuel` bits -/
-def parityAux : Nat → Nat → Bool → Bool
-  | 0, _, acc => acc
-  | f + 1, m, acc => parityAux f (m / 2) (acc ^^ (m % 2 == 1))
+/-- parity of the number of set bits among the lowest `2^l` bits, by folding halves -/
+def parityFold : Nat → Nat → Bool
+  | 0, m => m.testBit 0
+  | l + 1, m => parityFold l (m ^^^ (m >>> 2 ^ l))
 
-def parity (n m : Nat) : Bool := parityAux n m false
+/-- parity of the number of set bits of a mask below `2^32` -/
+def par (m : Nat) : Bool := parityFold 5 m
+
+/-- `forceNat v f = f v`.  For the kernel evaluator (`decide +kernel`) the `match` forces `v` to a
+literal once, so that `f` does not re-evaluate the expression `v` at every use. -/
+def forceNat {α : Type} (v : Nat) (f : Nat → α) : α :=
+  match v with
+  | 0 => f 0
+  | k + 1 => f (k + 1)
 
 namespace MP
 
 def one : MP := ⟨0, 0, 0⟩
 
 /-- do the two operators anticommute?  (symplectic form `x·z' + z·x'` over F2) -/
-def acomm (n : Nat) (a b : MP) : Bool := parity n (a.x &&& b.z) ^^ parity n (a.z &&& b.x)
+def acomm (a b : MP) : Bool := par ((a.x &&& b.z) ^^^ (a.z &&& b.x))
 
 /-- product, phase included: `X^x Z^z X^x' Z^z' = (-1)^{z·x'} X^{x+x'} Z^{z+z'}`. -/
-def mul (n : Nat) (a b : MP) : MP :=
-  ⟨(a.k + b.k + 2 * (parity n (a.z &&& b.x)).toNat) % 4, a.x ^^^ b.x, a.z ^^^ b.z⟩
-
-def sameXZ (a b : MP) : Bool := a.x == b.x && a.z == b.z
+def mul (a b : MP) : MP :=
+  ⟨(a.k + b.k + 2 * (par (a.z &&& b.x)).toNat) % 4, a.x ^^^ b.x, a.z ^^^ b.z⟩
 
 /-- per-qubit symbol (I=0 X=1 Y=2 Z=3) -/
 def sym (p : MP) (q : Nat) : Nat :=
@@ -90,15 +106,24 @@ def strPhase (n : Nat) (p : MP) : Nat := (p.k + 3 * p.numY n) % 4
 def weight (n : Nat) (p : MP) : Nat := ((List.range n).filter fun q => p.x.testBit q || p.z.testBit q).length
 
 /-- a (qubit, symbol) list ↦ operator `⊗ σ`, sign `+1` (`Y = iXZ`) -/
-def ofSparse (l : List (Nat × Nat)) : MP :=
-  l.foldl (fun p qs =>
-    let q := qs.1; let s := qs.2
-    ⟨if s == 2 then (p.k + 1) % 4 else p.k,
-     if s == 1 || s == 2 then p.x ||| bit q else p.x,
-     if s == 2 || s == 3 then p.z ||| bit q else p.z⟩) one
+def ofSparse : List (Nat × Nat) → MP
+  | [] => one
+  | (q, s) :: l =>
+      let p := ofSparse l
+      ⟨if s == 2 then (p.k + 1) % 4 else p.k,
+       if s == 1 || s == 2 then p.x ||| bit q else p.x,
+       if s == 2 || s == 3 then p.z ||| bit q else p.z⟩
 
 /-- a full string of symbols (qubit 0 first) ↦ operator, sign `+1` -/
 def ofSyms (l : List Nat) : MP := ofSparse ((List.range l.length).zip l)
+
+/-- evaluate the three fields once (kernel evaluation) -/
+def force {α : Type} (p : MP) (f : MP → α) : α :=
+  forceNat p.k fun k => forceNat p.x fun x => forceNat p.z fun z => f ⟨k, x, z⟩
+
+def forceList {α : Type} : List MP → (List MP → α) → α
+  | [], f => f []
+  | g :: gs, f => force g fun g' => forceList gs fun r => f (g' :: r)
 
 end MP
 
@@ -107,7 +132,7 @@ end MP
 def tb (m q : Nat) : Bool := m.testBit q
 def flipIf (c : Bool) (m q : Nat) : Nat := if c then m ^^^ bit q else m
 
-/-- conjugation of `i^k X^x Z^z` by one gate.  `none` for `unknown` / malformed gates. -/
+/-- conjugation of `i^k X^x Z^z` by one gate.  `none` for `unknown` / control = target. -/
 def conj1 (p : MP) : Gate → Option MP
   | .h q =>
       let xb := tb p.x q; let zb := tb p.z q
@@ -118,158 +143,33 @@ def conj1 (p : MP) : Gate → Option MP
   | .s q => some ⟨(p.k + (tb p.x q).toNat) % 4, p.x, flipIf (tb p.x q) p.z q⟩
   | .cx c t =>
       if c == t then none else
-      some ⟨p.k, flipIf (tb p.x c) p.x t, flipIf (tb p.z t) p.z c⟩
+      some ⟨p.k % 4, flipIf (tb p.x c) p.x t, flipIf (tb p.z t) p.z c⟩
   | .cz c t =>
       if c == t then none else
       some ⟨(p.k + 2 * (tb p.x c && tb p.x t).toNat) % 4, p.x, flipIf (tb p.x c) (flipIf (tb p.x t) p.z c) t⟩
   | .cy c t =>
       if c == t then none else
-      -- CY = S_t · CX · S_t†
+      -- CY = S_t · CX · S_t†,  S† = S·Z
       let xt := tb p.x t
-      let p1 : MP := ⟨(p.k + 3 * xt.toNat) % 4, p.x, flipIf xt p.z t⟩
-      let p2 : MP := ⟨p1.k, flipIf (tb p1.x c) p1.x t, flipIf (tb p1.z t) p1.z c⟩
-      let xt2 := tb p2.x t
-      some ⟨(p2.k + xt2.toNat) % 4, p2.x, flipIf xt2 p2.z t⟩
+      -- S_t† P S_t : X ↦ -Y = i^3 X Z
+      let k1 := (p.k + 3 * xt.toNat) % 4
+      let z1 := flipIf xt p.z t
+      -- CX
+      let x2 := flipIf (tb p.x c) p.x t
+      let z2 := flipIf (tb z1 t) z1 c
+      -- S_t
+      let xt2 := tb x2 t
+      some ⟨(k1 + xt2.toNat) % 4, x2, flipIf xt2 z2 t⟩
   | .unknown => none
 
-def conj (p : MP) : List Gate → Option MP
+def conjCirc (p : MP) : List Gate → Option MP
   | [] => some p
   | g :: gs => match conj1 p g with
-    | some p' => conj p' gs
+    | some p' => conjCirc p' gs
     | none => none
 
 /-- number of logical qubits: `K = 2^logK` for the shipped codes -/
 def Code.logK (c : Code) : Nat := Nat.log2 c.K
-
-/-- candidate stabilizer generators `S_j = U Z_j U†`, `j < n - log2 K` (the qubits fed with `|0⟩`:
-`generate_code_np` sets `q0[ind0] = 1` for `ind0 < K`, so the *last* qubits carry the logical index). -/
-def gens (c : Code) : List MP :=
-  (List.range (c.n - c.logK)).filterMap fun j => conj ⟨0, 0, bit j⟩ c.encode
-
-/-- all products of sub-multisets of the generators, phases dropped -/
-def spanXZ : List MP → List (Nat × Nat)
-  | [] => [(0, 0)]
-  | g :: gs => let r := spanXZ gs; r ++ r.map fun s => (s.1 ^^^ g.x, s.2 ^^^ g.z)
-
-/-! ### state vectors -/
-
-/-- a vector of length `2^depth`: perfect binary tree, left child = qubit value 0 -/
-inductive T where
-  | leaf (a : GInt)
-  | node (l r : T)
-deriving Repr, Inhabited
-
-namespace T
-
-def beq : T → T → Bool
-  | leaf a, leaf b => a.re == b.re && a.im == b.im
-  | node l r, node l' r' => beq l l' && beq r r'
-  | _, _ => false
-
-def zero : Nat → T
-  | 0 => leaf 0
-  | n + 1 => node (zero n) (zero n)
-
-/-- computational basis state `|idx⟩` of `n` qubits (qubit 0 most significant) -/
-def basis : Nat → Nat → T
-  | 0, _ => leaf 1
-  | n + 1, idx => if idx < 2 ^ n then node (basis n idx) (zero n) else node (zero n) (basis n (idx - 2 ^ n))
-
-/-- `a·s + b·t`, entry-wise -/
-def lin (a : GInt) (b : GInt) : T → T → T
-  | leaf u, leaf v => leaf (a * u + b * v)
-  | node l r, node l' r' => node (lin a b l l') (lin a b r r')
-  | _, _ => leaf 0
-
-def toList : T → List GInt
-  | leaf a => [a]
-  | node l r => toList l ++ toList r
-
-def depthOk : Nat → T → Bool
-  | 0, leaf _ => true
-  | n + 1, node l r => depthOk n l && depthOk n r
-  | _, _ => false
-
-/-- `Σ conj(s_i) t_i` -/
-def inner : T → T → GInt
-  | leaf a, leaf b => Conj.conj a * b
-  | node l r, node l' r' => inner l l' + inner r r'
-  | _, _ => 0
-
-end T
-
-/-- 2×2 matrix `[[a,b],[c,d]]` of Gaussian integers -/
-structure M2 where
-  a : GInt
-  b : GInt
-  c : GInt
-  d : GInt
-
-def mH : M2 := ⟨1, 1, 1, -1⟩            -- √2 · H
-def mX : M2 := ⟨0, 1, 1, 0⟩
-def mY : M2 := ⟨0, ⟨0, -1⟩, ⟨0, 1⟩, 0⟩
-def mZ : M2 := ⟨1, 0, 0, -1⟩
-def mS : M2 := ⟨1, 0, 0, ⟨0, 1⟩⟩
-
-/-- one-qubit gate on the qubit at depth `q` (`sim.state.apply_gate`) -/
-def app1 (m : M2) : Nat → T → T
-  | 0, .node l r => .node (T.lin m.a m.b l r) (T.lin m.c m.d l r)
-  | q + 1, .node l r => .node (app1 m q l) (app1 m q r)
-  | _, t => t
-
-/-- target at the current depth, control `q+1` levels below: returns the new (target=0, target=1) halves -/
-def ctlBelow (m : M2) : Nat → T → T → T × T
-  | 0, .node l0 l1, .node r0 r1 => (.node l0 (T.lin m.a m.b l1 r1), .node r0 (T.lin m.c m.d l1 r1))
-  | q + 1, .node l0 l1, .node r0 r1 =>
-      let a := ctlBelow m q l0 r0
-      let b := ctlBelow m q l1 r1
-      (.node a.1 b.1, .node a.2 b.2)
-  | _, l, r => (l, r)
-
-/-- descend `q` levels, then apply `f` -/
-def atDepth (f : T → T) : Nat → T → T
-  | 0, t => f t
-  | q + 1, .node l r => .node (atDepth f q l) (atDepth f q r)
-  | _, t => t
-
-/-- controlled one-qubit gate (`sim.state.apply_control_n_gate` with one control, one target):
-the 2×2 matrix acts on the target in the subspace where the control qubit is 1. -/
-def appC (m : M2) (c t : Nat) : T → T :=
-  if c < t then
-    atDepth (fun s => match s with
-      | .node l r => .node l (app1 m (t - c - 1) r)
-      | s => s) c
-  else
-    atDepth (fun s => match s with
-      | .node l r => let p := ctlBelow m (c - t - 1) l r; .node p.1 p.2
-      | s => s) t
-
-/-- a state: the vector is `(1/√2)^h · t` -/
-structure St where
-  h : Nat
-  t : T
-
-/-- model of one step of `Circuit.apply_state` (`sim/circuit.py:488-510`) on `n` qubits -/
-def step (n : Nat) (s : St) : Gate → Option St
-  | .h q => if q < n then some ⟨s.h + 1, app1 mH q s.t⟩ else none
-  | .x q => if q < n then some ⟨s.h, app1 mX q s.t⟩ else none
-  | .y q => if q < n then some ⟨s.h, app1 mY q s.t⟩ else none
-  | .z q => if q < n then some ⟨s.h, app1 mZ q s.t⟩ else none
-  | .s q => if q < n then some ⟨s.h, app1 mS q s.t⟩ else none
-  | .cx c t => if c < n && t < n && c != t then some ⟨s.h, appC mX c t s.t⟩ else none
-  | .cy c t => if c < n && t < n && c != t then some ⟨s.h, appC mY c t s.t⟩ else none
-  | .cz c t => if c < n && t < n && c != t then some ⟨s.h, appC mZ c t s.t⟩ else none
-  | .unknown => none
-
-def run (n : Nat) (s : St) : List Gate → Option St
-  | [] => some s
-  | g :: gs => match step n s g with
-    | some s' => run n s' gs
-    | none => none
-
-/-- model of `generate_code_np(circ, K)` (`_internal.py:137-146`): the images of `|0⟩ … |K-1⟩` -/
-def codewords (c : Code) : List (Option St) :=
-  (List.range c.K).map fun a => run c.n ⟨0, T.basis c.n a⟩ c.encode
 
 def allSome {α : Type} : List (Option α) → Option (List α)
   | [] => some []
@@ -278,17 +178,84 @@ def allSome {α : Type} : List (Option α) → Option (List α)
     | some r => some (a :: r)
     | none => none
 
-/-! ### Pauli operators on vectors -/
+/-- stabilizer generators `S_j = U Z_j U†`, `j < n - log2 K` (the qubits fed with `|0⟩`:
+`generate_code_np` sets `q0[ind0] = 1` for the flat index `ind0 < K`, so the *last* `log2 K` qubits
+carry the logical index). -/
+def gens (c : Code) : Option (List MP) :=
+  allSome ((List.range (c.n - c.logK)).map fun j => conjCirc ⟨0, 0, bit j⟩ c.encode)
 
-/-- `(P v)(b') = i^{k + 2 z·b} v(b)`, `b = b' ⊕ x`; `q` = depth of the current node. -/
-def applyPAux (x z : Nat) : Nat → Nat → T → T
-  | _, k, .leaf a => .leaf (GInt.iPow k * a)
-  | q, k, .node l r =>
-      let zb := 2 * (z.testBit q).toNat
-      if x.testBit q then .node (applyPAux x z (q + 1) (k + zb) r) (applyPAux x z (q + 1) k l)
-      else .node (applyPAux x z (q + 1) k l) (applyPAux x z (q + 1) (k + zb) r)
+/-- logical `Z̄_l = U Z_{n-k+l} U†`, `l < k = log2 K` -/
+def zbars (c : Code) : Option (List MP) :=
+  allSome ((List.range c.logK).map fun l => conjCirc ⟨0, 0, bit (c.n - c.logK + l)⟩ c.encode)
 
-def applyP (p : MP) (t : T) : T := applyPAux p.x p.z 0 p.k t
+/-- logical `X̄_l = U X_{n-k+l} U†` -/
+def xbars (c : Code) : Option (List MP) :=
+  allSome ((List.range c.logK).map fun l => conjCirc ⟨0, bit (c.n - c.logK + l), 0⟩ c.encode)
+
+/-- all products of sub-multisets of the generators, phases included -/
+def span : List MP → List MP
+  | [] => [MP.one]
+  | g :: gs => let r := span gs; r ++ r.map fun s => MP.mul g s
+
+/-! ### state vectors
+
+A vector is a function `position → amplitude`; the basis state `|b_0 … b_{n-1}⟩` has position
+`Σ b_q 2^q` (qubit `q` = bit `q`, the convention of the `MP` masks).  numpy's flat index (qubit 0 most
+significant) is the bit reversal, `posOfIdx`.  Everything is generic in the scalar type `α` with an
+element `I` (`I² = -1`): the driver runs it at `GInt`, the theorems hold over any commutative ring.
+`H` is `[[1,1],[1,-1]]`, i.e. the true vector is `(1/√2)^{#H} ·` the model vector. -/
+
+section Vec
+variable {α : Type} [Add α] [Sub α] [Neg α] [Mul α] [Zero α] [One α]
+
+/-- `I^k` -/
+def ipow (I : α) : Nat → α
+  | 0 => 1
+  | k + 1 => ipow I k * I
+
+/-- flip bit `q` of a position -/
+def fl (i q : Nat) : Nat := i ^^^ bit q
+
+/-- model of one step of `Circuit.apply_state` (`sim/circuit.py:488-510`, `sim.state.apply_gate`,
+`apply_control_n_gate`): the 2×2 matrix of the gate acts on the target qubit (where the control is 1):
+`(G v)(i) = Σ_c G[i_q, c] · v(i with bit q := c)`. -/
+def applyGate (I : α) (g : Gate) (v : Nat → α) : Nat → α :=
+  match g with
+  | .h q => fun i => if tb i q then v (fl i q) - v i else v i + v (fl i q)
+  | .x q => fun i => v (fl i q)
+  | .y q => fun i => if tb i q then I * v (fl i q) else -(I * v (fl i q))
+  | .z q => fun i => if tb i q then -(v i) else v i
+  | .s q => fun i => if tb i q then I * v i else v i
+  | .cx c t => fun i => if tb i c then v (fl i t) else v i
+  | .cy c t => fun i => if tb i c then (if tb i t then I * v (fl i t) else -(I * v (fl i t))) else v i
+  | .cz c t => fun i => if tb i c && tb i t then -(v i) else v i
+  | .unknown => v
+
+/-- the circuit: gates applied in list order -/
+def run (I : α) : List Gate → (Nat → α) → Nat → α
+  | [], v => v
+  | g :: gs, v => run I gs (applyGate I g v)
+
+/-- basis vector at a position -/
+def basisVec (p : Nat) : Nat → α := fun i => if i == p then 1 else 0
+
+/-- `(P v)(i') = I^{k + 2 z·i} v(i)`, `i = i' ⊕ x`  (the operator `i^k X^x Z^z`). -/
+def pauliAct (I : α) (p : MP) (v : Nat → α) : Nat → α :=
+  fun i' => let i := i' ^^^ p.x; ipow I (p.k + 2 * (par (p.z &&& i)).toNat) * v i
+
+end Vec
+
+/-- position (qubit `q` = bit `q`) of numpy's flat index (qubit 0 most significant) -/
+def posOfIdx : Nat → Nat → Nat
+  | 0, _ => 0
+  | n + 1, idx => 2 * posOfIdx n (idx % 2 ^ n) + idx / 2 ^ n
+
+/-- model of `generate_code_np(circ, K)[a]` (`_internal.py:137-146`): the image of the basis state
+with flat index `a` (`q0[ind0] = 1`), scaled by `√2^{#H}`. -/
+def codeword {α : Type} [Add α] [Sub α] [Neg α] [Mul α] [Zero α] [One α] (I : α) (c : Code) (a : Nat) : Nat → α :=
+  run I c.encode (basisVec (posOfIdx c.n a))
+
+def countH (gs : List Gate) : Nat := (gs.filter fun g => match g with | .h _ => true | _ => false).length
 
 /-! ### error sets -/
 
@@ -320,9 +287,10 @@ def split : List Nat → List Nat → List (List (List Nat))
 /-- `⌈a / b⌉` for `b > 0` -/
 def ceilDiv (a b : Nat) : Nat := (a + b - 1) / b
 
-/-- `make_asymmetric_error_set(num_qubit, distance, weight_z = p/q)` (`_internal.py:61-78`). -/
+/-- `make_asymmetric_error_set(num_qubit, distance, weight_z = p/q)` (`_internal.py:61-78`, after fix b728c8a:
+`nxy` ranges over `range(min(num_qubit+1, distance))`). -/
 def asymErrorSet (n d p q : Nat) : List (List (Nat × Nat)) :=
-  (List.range (min n d)).flatMap fun nxy =>
+  (List.range (min (n + 1) d)).flatMap fun nxy =>
     let bound := ceilDiv ((d - nxy) * q) p
     (List.range (min (n - nxy + 1) bound)).flatMap fun nz =>
       if nxy == 0 && nz == 0 then [] else
@@ -339,54 +307,33 @@ def sparseToSyms (n : Nat) (l : List (Nat × Nat)) : List Nat :=
     | some qs => qs.2
     | none => 0
 
-/-! ### per-code obligations -/
-
-def hOf : List St → Nat
-  | [] => 0
-  | s :: _ => s.h
-
-/-- every candidate generator fixes every code word, sign included; there are `n - log2 K` of them;
-all vectors have the right shape. -/
-def stabCheck (c : Code) : Bool :=
-  match allSome (codewords c) with
-  | none => false
-  | some cw =>
-      let gs := gens c
-      2 ^ c.logK == c.K && c.logK ≤ c.n && gs.length == c.n - c.logK
-        && cw.all (fun s => T.depthOk c.n s.t)
-        && gs.all fun g => cw.all fun s => T.beq (applyP g s.t) s.t
-
-/-- Knill–Laflamme on the Pauli level: every error of weight `1..d-1` (model of `make_error_list`)
-anticommutes with some generator or equals a product of generators up to a phase. -/
-def klCheck (c : Code) : Bool :=
-  let gs := gens c
-  let sp := spanXZ gs
-  (errorList c.n c.d).all fun e =>
-    let p := MP.ofSparse e
-    gs.any (fun g => MP.acomm c.n g p) || sp.any (fun s => s.1 == p.x && s.2 == p.z)
-
-def orthoGo (h : Nat) : List St → Bool
-  | [] => true
-  | s :: rest =>
-      s.h == h && (let v := T.inner s.t s.t; v.re == 2 ^ h && v.im == 0)
-        && rest.all (fun s' => let v := T.inner s.t s'.t; v.re == 0 && v.im == 0)
-        && orthoGo h rest
-
-/-- `⟨c_a|c_b⟩ = δ_ab`:  scaled vectors have `⟨v_a|v_b⟩ = 2^h δ_ab`. -/
-def orthoCheck (c : Code) : Bool :=
-  match allSome (codewords c) with
-  | none => false
-  | some cw => orthoGo (hOf cw) cw
+/-! ### per-code obligations (tableau level, evaluated in the kernel) -/
 
 def symsOk (n : Nat) (l : List Nat) : Bool := l.length == n && l.all (· < 4)
 
-/-- every listed Pauli string (sign `+1`) fixes every code word -/
-def listedFixCheck (c : Code) : Bool :=
-  match allSome (codewords c) with
+/-- shape of the code data: gates well-formed, `K = 2^k`, `k ≤ n ≤ 32`, `n - k` generators -/
+def shapeCheck (c : Code) : Bool :=
+  c.encode.all (gateOk c.n) && 2 ^ c.logK == c.K && c.logK ≤ c.n && c.n ≤ 32 && 1 < c.d
+
+def klOne (gs sp : List MP) (p : MP) : Bool :=
+  MP.force p fun p => gs.any (fun g => MP.acomm g p) || sp.any (fun s => s.x == p.x && s.z == p.z)
+
+/-- Knill–Laflamme on the Pauli level: every error of weight `1..d-1` (model of `make_error_list`)
+anticommutes with some generator `S_j = U Z_j U†` or equals a product of generators up to a phase. -/
+def klCheck (c : Code) : Bool :=
+  shapeCheck c &&
+  match gens c with
   | none => false
-  | some cw =>
-      !c.listed.isEmpty && c.listed.all fun l =>
-        symsOk c.n l && cw.all fun s => T.beq (applyP (MP.ofSyms l) s.t) s.t
+  | some gs => MP.forceList gs fun gs => MP.forceList (span gs) fun sp =>
+      (errorList c.n c.d).all fun e => klOne gs sp (MP.ofSparse e)
+
+/-- every listed Pauli string is, with sign `+1`, a product of the generators `S_j` -/
+def listedCheck (c : Code) : Bool :=
+  shapeCheck c && !c.listed.isEmpty &&
+  match gens c with
+  | none => false
+  | some gs => MP.forceList (span gs) fun sp =>
+      c.listed.all fun l => symsOk c.n l && MP.force (MP.ofSyms l) fun p => sp.any (fun s => s == p)
 
 /-- the operator implemented by a circuit made of X/Y/Z gates only (`none` otherwise):
 the circuit `g_1, …, g_m` is the operator `g_m ⋯ g_1`. -/
@@ -399,28 +346,44 @@ def circPauli (n : Nat) : List Gate → Option MP
         | .z q => if q < n then some (MP.ofSparse [(q, 3)]) else none
         | _ => none
       match p, circPauli n gs with
-      | some p, some r => some (MP.mul n r p)
+      | some p, some r => some (MP.mul r p)
       | _, _ => none
 
 /-- each shipped stabilizer circuit is exactly its listed Pauli string (as an operator, sign `+1`) -/
 def stabCircImplCheck (c : Code) : Bool :=
-  c.stabCircs.length == c.listed.length &&
+  c.n ≤ 32 && !c.listed.isEmpty && c.stabCircs.length == c.listed.length &&
   (c.stabCircs.zip c.listed).all fun cl =>
     symsOk c.n cl.2 && match circPauli c.n cl.1 with
     | some p => p == MP.ofSyms cl.2
     | none => false
 
-/-- each shipped stabilizer circuit, run by the state-vector model, maps every code word to itself -/
-def stabCircFixCheck (c : Code) : Bool :=
-  match allSome (codewords c) with
-  | none => false
-  | some cw =>
-      !c.stabCircs.isEmpty && c.stabCircs.all fun gl => cw.all fun s =>
-        match run c.n ⟨0, s.t⟩ gl with
-        | some s' => s'.h == 0 && T.beq s'.t s.t
-        | none => false
+/-! ### vector-level evaluations (driver) -/
 
-/-! ### weight enumerators (`quantum_weight_enumerator`, `_internal.py:99-127`) on the model vectors -/
+/-- amplitudes in numpy order (flat index, qubit 0 most significant) -/
+def ampsOf (n : Nat) (v : Nat → GInt) : Array GInt :=
+  ((List.range (2 ^ n)).map fun idx => v (posOfIdx n idx)).toArray
+
+/-- amplitudes by position -/
+def tabulate (n : Nat) (v : Nat → GInt) : Array GInt :=
+  ((List.range (2 ^ n)).map v).toArray
+
+def ofArray (a : Array GInt) : Nat → GInt := fun i => a.getD i 0
+
+/-- `run`, tabulating after every gate (same function on positions `< 2^n`, cheap to evaluate) -/
+def runTab (n : Nat) : List Gate → Array GInt → Array GInt
+  | [], a => a
+  | g :: gs, a => runTab n gs (tabulate n (applyGate GInt.I g (ofArray a)))
+
+def codewordTab (c : Code) (a : Nat) : Array GInt :=
+  runTab c.n c.encode (tabulate c.n (basisVec (posOfIdx c.n a)))
+
+def innerA (a b : Array GInt) : GInt :=
+  (a.toList.zip b.toList).foldl (fun acc xy => acc + Conj.conj xy.1 * xy.2) 0
+
+def pauliTab (n : Nat) (p : MP) (a : Array GInt) : Array GInt :=
+  tabulate n (pauliAct GInt.I p (ofArray a))
+
+def gnormSq (a : GInt) : Int := a.re * a.re + a.im * a.im
 
 /-- all strings of `n` symbols -/
 def allSyms : Nat → List (List Nat)
@@ -429,23 +392,20 @@ def allSyms : Nat → List (List Nat)
 
 def symWeight (l : List Nat) : Nat := (l.filter (· != 0)).length
 
-def gnormSq (a : GInt) : Int := a.re * a.re + a.im * a.im
-
 /-- for one Pauli string: `(|Σ_a M_aa|², Σ_ab |M_ab|²)` with `M_ab = ⟨v_a|P|v_b⟩` (scaled by `2^h`) -/
-def enumTerm (cw : List St) (l : List Nat) : Int × Int :=
+def enumTerm (n : Nat) (cw : List (Array GInt)) (l : List Nat) : Int × Int :=
   let p := MP.ofSyms l
-  let imgs := cw.map fun s => applyP p s.t
-  let tr : GInt := (cw.zip imgs).foldl (fun acc si => acc + T.inner si.1.t si.2) 0
-  let b : Int := cw.foldl (fun acc s => imgs.foldl (fun acc' im => acc' + gnormSq (T.inner s.t im)) acc) 0
+  let imgs := cw.map (pauliTab n p)
+  let tr : GInt := (cw.zip imgs).foldl (fun acc si => acc + innerA si.1 si.2) 0
+  let b : Int := cw.foldl (fun acc v => imgs.foldl (fun acc' im => acc' + gnormSq (innerA v im)) acc) 0
   (gnormSq tr, b)
 
-/-- `(K²·4^h·A_j, K·4^h·B_j)` for `j = 0..n` -/
-def weightEnum (c : Code) : Option (List (Int × Int)) :=
-  match allSome (codewords c) with
-  | none => none
-  | some cw =>
-      let terms := (allSyms c.n).map fun l => (symWeight l, enumTerm cw l)
-      some ((List.range (c.n + 1)).map fun j =>
-        terms.foldl (fun acc t => if t.1 == j then (acc.1 + t.2.1, acc.2 + t.2.2) else acc) (0, 0))
+/-- `(K²·4^h·A_j, K·4^h·B_j)` for `j = 0..n` (`quantum_weight_enumerator`, `_internal.py:99-127`, which
+returns `j = 1..n`) on the model code words -/
+def weightEnum (c : Code) : List (Int × Int) :=
+  let cw := (List.range c.K).map (codewordTab c)
+  let terms := (allSyms c.n).map fun l => (symWeight l, enumTerm c.n cw l)
+  (List.range (c.n + 1)).map fun j =>
+    terms.foldl (fun acc t => if t.1 == j then (acc.1 + t.2.1, acc.2 + t.2.2) else acc) (0, 0)
 
 end Numqi.Qec
